@@ -189,6 +189,10 @@ func newWorld(fds []*descriptorpb.FileDescriptorProto) *world {
 			}
 		}
 	}
+	// visibility is precomputed: a world is read-only afterwards (shared by workers)
+	for _, n := range w.names {
+		w.visible(n)
+	}
 	return w
 }
 
